@@ -33,6 +33,7 @@ pub fn replay_rows(tlc_out: &str, rep: &mut Report) {
     for payload in tlc_rows(tlc_out, "ROW") {
         let Ok(row) = serde_json::from_str::<J>(&payload) else { continue };
         rep.count("rows");
+        rep.ctx = Some(json!({"sub": "rng-replay", "row": payload}));
         let seed: u64 = text_of(&row["seed"]).parse().unwrap_or(0);
         let signs: Vec<String> = row["signs"].as_array().unwrap().iter().map(|s| s.as_str().unwrap().to_string()).collect();
         let states: Vec<String> = row["states"].as_array().unwrap().iter().map(text_of).collect();
